@@ -229,13 +229,16 @@ MUT_VALUES = [None, True, False, 0, -1, 1, 5, 2 ** 32 - 1, 2 ** 32, 2 ** 64 - 1,
               "m/٤٤'/0'/0'/0/0", "m/44''/0'/0'/0/0", "m//0'/0'/0/0", "44'/0'/0'/0/0", "m/44'/0'/0'/0/0'",
               # strings of Unicode decimal digits / full-width letters: hex to a careless regex, not to bytes.fromhex
               "\u0660\u0661\u0662\u0663", "\u0661\u0662" * 32, "\uff11\uff12", "\uff41\uff42", "ab\u0660\u0661", "\u0661\u0662" * 16,
+              # the nominal width of a 32- / 16-byte hex field, but with blanks that bytes.fromhex skips
+              "ab" * 31 + "  ", "ab" * 15 + "  ", " " * 64, " " * 32, "ab" * 30 + " ab ", "ab " * 21 + "a",
               "version", "sign", "nope", 2147483647, 2147483648, 4294967295, 4294967296, 18446744073709551615,
               18446744073709551616]
 ABSENT = object()
 # literals harvested from changed source functions (harness/fingerprint.py); empty on the recorded tree
 EXTRA_VALUES = []
 # always tried, even when the matrix is sampled
-PRIORITY = [None, "", "zz", [], {}, True, -1, 2 ** 32, "0x" + "ab" * 16, "0x" + "ab" * 32, "ab cd", 5.0, "\u0660\u0661\u0662\u0663"]
+PRIORITY = [None, "", "zz", [], {}, True, -1, 2 ** 32, "0x" + "ab" * 16, "0x" + "ab" * 32, "ab cd", 5.0, "\u0660\u0661\u0662\u0663",
+            "ab" * 31 + "  ", "ab" * 15 + "  "]
 
 
 def paths_of(v, prefix=()):
